@@ -40,6 +40,11 @@ def serial_checks(V):
     sink = io.StringIO()
     saved_jpy = os.environ.pop("JPY_PARENT_PID", None)      # progress bars behave differently under Jupyter
     try:
+      for jupyter in (False, True):                          # outside and inside a Jupyter kernel (JPY_PARENT_PID)
+        if jupyter:
+            os.environ["JPY_PARENT_PID"] = "1"
+        else:
+            os.environ.pop("JPY_PARENT_PID", None)
         for what in ("walk", "visit_leaves", "transform"):
             for progress in (False, True):                   # with and without the progress bar (stdout is not a tty here)
                 for when in (1, 3):                          # failing at the first / a later item
@@ -51,7 +56,7 @@ def serial_checks(V):
                         if calls[0] >= when:
                             raise RuntimeError("boom")
                     try:
-                        with contextlib.redirect_stdout(sink):
+                        with contextlib.redirect_stdout(sink), contextlib.redirect_stderr(sink):
                             if what == "walk":
                                 Pyramid.new_generic(2).walk(lambda pos: boom(), parallel=1, cli_progress=progress)
                             elif what == "visit_leaves":
@@ -64,9 +69,11 @@ def serial_checks(V):
                     n += 1
                     if not raised:
                         V.disagreement("serial mode propagates callback errors",
-                                       dict(stage=what, parallel=1, cli_progress=progress, fails_at_call=when),
+                                       dict(stage=what, parallel=1, cli_progress=progress, fails_at_call=when,
+                                            JPY_PARENT_PID_set=jupyter),
                                        "RuntimeError reaches the caller", "no exception", True)
     finally:
+        os.environ.pop("JPY_PARENT_PID", None)
         if saved_jpy is not None:
             os.environ["JPY_PARENT_PID"] = saved_jpy
     return n
